@@ -59,10 +59,9 @@ def _inline_self_call(prog: Program, fi: FuncInfo, e: ast.AST) -> Optional[ast.A
     return None
 
 
-def run(prog: Program, rep, tier: str) -> None:
-    rep.explanation = EXPLANATION
+def run_scaling_only(prog: Program, rep) -> int:
+    """exponent forms of Scaling.scale_* / unscale_* and their inverse pairing (shared with C01)."""
     n_ldexp = 0
-    # ---------------- Scaling.scale_* / unscale_* ---------------------------------------------
     sc = prog.cls(SC)
     forms: Dict[str, Form] = {}
     for name, want in SCALING_TABLE.items():
@@ -88,6 +87,12 @@ def run(prog: Program, rep, tier: str) -> None:
         if a in forms and b in forms:
             rep.check(add(forms[a], forms[b]) == {}, "inverse-pairs", sc.qualname, f"{a}/{b}", f"{a} and {b} are mutually inverse (exponents sum to zero)", sc.methods[a].loc())
 
+    return n_ldexp
+
+
+def run(prog: Program, rep, tier: str) -> None:
+    rep.explanation = EXPLANATION
+    n_ldexp = run_scaling_only(prog, rep)
     # ---------------- ScaledProblem --------------------------------------------------------------
     sp = prog.cls(SP)
 
